@@ -32,7 +32,7 @@ MUST_SEE = [
     "matches", "mismatches", "reasked", "multi_questions", "regex_middle_only", "tail_capture", "empty_seq_vs_nonempty", "reasked_after_rejected",
 ]
 CONFIG = {
-    "quick": {"shards": 16, "trees": 25, "patterns_per_node": 3, "watchdog_s": 600},
+    "quick": {"shards": 16, "trees": 200, "patterns_per_node": 3, "watchdog_s": 600},
     "thorough": {"shards": 32, "trees": 300, "patterns_per_node": 5, "watchdog_s": 3400},
 }
 
